@@ -77,7 +77,7 @@ pub fn chan_specs(plan: &Plan) -> Vec<ChanSpec> {
             creator,
             label: format!("chan-{i}-{code}"),
             protocol: if i % 2 == 0 { String::new() } else { format!("proto{i}") },
-            late_ms: if inband { plan.knob(&format!("late{i}"), 0).max(0) as u64 } else { 0 },
+            late_ms: plan.knob(&format!("late{i}"), 0).max(0) as u64,
         });
     }
     out
@@ -581,8 +581,10 @@ pub async fn run(ctx: &Ctx) {
             if spec.inband && spec.creator != side {
                 continue; // will arrive through DCEP
             }
-            if spec.inband && spec.late_ms > 0 {
-                late.push(spec.clone()); // created by the application while the association is in use
+            if spec.late_ms > 0 {
+                // created by the application while the association is in use (in-band: by its creator only;
+                // pre-negotiated: by both applications, the `creator` - the side that sends first - a little later)
+                late.push(spec.clone());
                 continue;
             }
             let dc = Arc::new(DataChannel::new(
@@ -641,17 +643,20 @@ pub async fn run(ctx: &Ctx) {
             let c = CtxLite { sh: ctx.sh.clone() };
             let st2 = st.clone();
             let open_tx2 = open_tx.clone();
+            let open_tx3 = open_tx.clone();
             let keep_late: Arc<Mutex<Vec<Arc<DataChannel>>>> = Arc::new(Mutex::new(Vec::new()));
             aux_tasks.push(tokio::spawn(vh::wrap_task(async move {
                 let t0 = c.sh.lock().unwrap().t0;
-                tokio::time::sleep_until(t0 + Duration::from_millis(spec.late_ms)).await;
+                // a pre-negotiated channel must exist at the receiver before the first message can arrive
+                let skew = if !spec.inband && spec.creator == side { 400 } else { 0 };
+                tokio::time::sleep_until(t0 + Duration::from_millis(spec.late_ms + skew)).await;
                 let dc = Arc::new(DataChannel::new(
                     spec.id,
-                    DataChannelConfig { label: spec.label.clone(), protocol: spec.protocol.clone(), ordered: spec.ordered, max_retransmits: spec.max_retransmits, max_packet_life_time: spec.max_life, max_payload_size: None, negotiated: None },
+                    DataChannelConfig { label: spec.label.clone(), protocol: spec.protocol.clone(), ordered: spec.ordered, max_retransmits: spec.max_retransmits, max_packet_life_time: spec.max_life, max_payload_size: None, negotiated: if spec.inband { None } else { Some(spec.id) } },
                 ));
                 list.lock().push(Arc::downgrade(&dc));
                 keep_late.lock().unwrap().push(dc.clone());
-                c.ev(&format!("api {} open in-band ch{}", if side == 0 { "A" } else { "B" }, spec.id), "");
+                c.ev(&format!("api {} {} ch{}", if side == 0 { "A" } else { "B" }, if spec.inband { "open in-band" } else { "register pre-negotiated" }, spec.id), "");
                 let dc2 = dc.clone();
                 let rd = tokio::spawn(vh::wrap_task(async move {
                     loop {
@@ -668,7 +673,15 @@ pub async fn run(ctx: &Ctx) {
                         }
                     }
                 }));
-                let _ = sctp2.send_dcep_open(&dc).await;
+                if spec.inband {
+                    let _ = sctp2.send_dcep_open(&dc).await;
+                } else if spec.creator == side {
+                    // nothing announces Open for a channel registered on a live association until a message arrives:
+                    // the application that wants to talk first simply starts sending
+                    if let Some(t) = open_tx3.get(&spec.id) {
+                        let _ = t.send(true);
+                    }
+                }
                 let _ = rd.await;
             })));
         }
@@ -784,7 +797,8 @@ pub async fn run(ctx: &Ctx) {
     // the pending T1 timer (INIT or COOKIE-ECHO; its RTO never exceeds rto_max) fires at most rto_max later and the
     // remaining exchange takes two round trips. Observed through the negotiated channels, which report Open at
     // establishment. Nothing is demanded once any side reported a close.
-    let negotiated_ids: Vec<u16> = specs.iter().filter(|sp| !sp.inband).map(|sp| sp.id).collect();
+    // (pre-negotiated channels registered later never announce Open by themselves, so they say nothing here)
+    let negotiated_ids: Vec<u16> = specs.iter().filter(|sp| !sp.inband && sp.late_ms == 0).map(|sp| sp.id).collect();
     let rtt_ms = (plan.latency_us[0] + plan.latency_us[1]) / 1000 + 2;
     let mut dtls_both_at: Option<u64> = None;
     let mut setup_judged = false;
